@@ -142,10 +142,16 @@ func init() {
 		}
 		switch last.Kind {
 		case OpLoadVersion, OpLVFO, OpDelFrom:
-			return c.V.Oracle == "api" && is(last.Ver)
+			if c.V.Oracle == "api" {
+				return is(last.Ver)
+			}
 		case OpReopen:
-			return c.V.Oracle == "api" && last.Ver > 0 && is(last.Ver)
+			if c.V.Oracle == "api" {
+				return last.Ver > 0 && is(last.Ver)
+			}
 		}
+		// (a last operation that agrees with the model on success/failure but loaded the phantom version on
+		// the way - LoadVersionForOverwriting refused because of a pinned version - is found by the scan below)
 		// state oracles of C14 name the version they complain about
 		if strings.HasSuffix(c.V.Oracle, "versions/phantom") {
 			return is(c.V.OpVer)
